@@ -29,6 +29,8 @@ type Mutant struct {
 
 var Mutants = map[string][]Mutant{
 	"C01": {
+		{"depth plus one computed before the depth is read", "path_intersection.go", `(?s)(\t\t\twindings := 0\n)(\t\t\tprev := cur\.prev\n.*?)\t\t\tcur\.resultWindings = windings\n\t\t\tif !first\.open \{\n\t\t\t\t// we go to the right/top\n\t\t\t\tcur\.resultWindings\+\+\n\t\t\t\}\n`, "${1}\t\t\tabove := windings\n\t\t\tif !cur.open {\n\t\t\t\tabove++\n\t\t\t}\n${2}\t\t\tcur.resultWindings = above\n", "E9.depth-derived-after-read"},
+		{"neighbours of a leaving segment tested only across operands", "path_intersection.go", `(next := n\.Next\(\)\n\t\t\t\tif prev != nil && next != nil) \{`, "$1 && (op == opSettle || prev.clipping != next.clipping) {", "E9.adjacent-always-tested"},
 		{"windings not inherited above an open segment", "path_intersection.go", `(// compute windings\n\tif prev != nil) \{`, "$1 && !prev.open {", "E9.winding-inherited"},
 		{"second half of a split segment keeps the status node", "path_intersection.go", `\tl\.node = nil\n`, "", "E9.copy-drops-status-node"},
 		{"upper-neighbour check overwrites the re-sort flag", "path_intersection.go", `has = has \|\| addIntersections\(zs, queue, centre, square\.Upper, next\)`, "has = addIntersections(zs, queue, centre, square.Upper, next)", "E11.sticky-flag"},
@@ -44,6 +46,8 @@ var Mutants = map[string][]Mutant{
 		{"empty Q returns P for And", "path_intersection.go", `if op == opAND \{\n\t\t\treturn &Path\{\}\n\t\t\}\n\t\treturn ps\.Settle\(fillRule\)`, `return ps.Settle(fillRule)`, "E9.shortcut"},
 	},
 	"C02": {
+		{"depth plus one computed before the depth is read", "path_intersection.go", `(?s)(\t\t\twindings := 0\n)(\t\t\tprev := cur\.prev\n.*?)\t\t\tcur\.resultWindings = windings\n\t\t\tif !first\.open \{\n\t\t\t\t// we go to the right/top\n\t\t\t\tcur\.resultWindings\+\+\n\t\t\t\}\n`, "${1}\t\t\tabove := windings\n\t\t\tif !cur.open {\n\t\t\t\tabove++\n\t\t\t}\n${2}\t\t\tcur.resultWindings = above\n", "E9.depth-derived-after-read"},
+		{"neighbours of a leaving segment tested only across operands", "path_intersection.go", `(next := n\.Next\(\)\n\t\t\t\tif prev != nil && next != nil) \{`, "$1 && (op == opSettle || prev.clipping != next.clipping) {", "E9.adjacent-always-tested"},
 		{"windings not inherited above an open segment", "path_intersection.go", `(// compute windings\n\tif prev != nil) \{`, "$1 && !prev.open {", "E9.winding-inherited"},
 		{"depth of a contour read from an open segment below (reverts fix 8b3acb0)", "path_intersection.go", `for prev != nil && \(!prev\.resultEdge \|\| prev\.open\) \{`, "for prev != nil && !prev.resultEdge {", "E9.depth-from-result-edge"},
 		{"Reverse flips the direction flag of the receiver only", "path_intersection.go", `s\.increasing, s\.other\.increasing = !s\.increasing, !s\.other\.increasing`, "s.increasing, s.other.increasing = !s.increasing, s.increasing", "E9.endpoint-pair"},
@@ -136,6 +140,7 @@ var Mutants = map[string][]Mutant{
 		{"Join passes radians to ArcTo", "path.go", `p\.ArcTo\(d\[1\], d\[2\], d\[3\]\*180\.0/math\.Pi, large, sweep, d\[5\], d\[6\]\)`, `p.ArcTo(d[1], d[2], d[3], large, sweep, d[5], d[6])`, "E8.units"},
 	},
 	"C08": {
+		{"arc extremes folded from a table of points with both coordinates", "path.go", `(?s)\t\t\tif angleBetween\(thetaLeft, theta0, theta1\) \{\n\t\t\t\txmin = math\.Min\(xmin, cx-dx\)\n\t\t\t\}\n`, "\t\t\tif angleBetween(thetaLeft, theta0, theta1) {\n\t\t\t\txmin = math.Min(xmin, cx-dx)\n\t\t\t\tymin, ymax = math.Min(ymin, cy), math.Max(ymax, cy)\n\t\t\t}\n", "E3.arc-extent"},
 		{"cubic bounds solve the derivative only when the end tangents disagree", "path.go", `(c := -start\.X \+ cp1\.X\n\t\t\t)t1, t2 := solveQuadraticFormula\(a, b, c\)`, "${1}t1, t2 := math.NaN(), math.NaN()\n\t\t\tif c*(end.X-cp2.X) <= 0.0 {\n\t\t\t\tt1, t2 = solveQuadraticFormula(a, b, c)\n\t\t\t}", "E3.derivative-solved"},
 		{"arc half extent as the 1-norm of the coefficients", "path.go", `dx := math\.Sqrt\(rx\*rx\*cosphi\*cosphi \+ ry\*ry\*sinphi\*sinphi\)`, "dx := rx*math.Abs(cosphi) + ry*math.Abs(sinphi)", "E3.arc-extent"},
 		{"arc Y extent computed with the X polynomial", "path.go", `dy := math\.Sqrt\(rx\*rx\*sinphi\*sinphi \+ ry\*ry\*cosphi\*cosphi\)`, "dy := math.Sqrt(rx*rx*cosphi*cosphi + ry*ry*sinphi*sinphi)", "E3.arc-extent"},
@@ -164,6 +169,7 @@ var Mutants = map[string][]Mutant{
 		{"quad case reads offset 5", "path.go", `\t\tcase QuadToCmd:\n\t\t\tcp := Point\{p\.d\[i\+1\], p\.d\[i\+2\]\}\n\t\t\tend = Point\{p\.d\[i\+3\], p\.d\[i\+4\]\}\n\t\t\txmin = math\.Min\(xmin, math\.Min\(cp\.X, end\.X\)\)`, "\t\tcase QuadToCmd:\n\t\t\tcp := Point{p.d[i+1], p.d[i+2]}\n\t\t\tend = Point{p.d[i+5], p.d[i+6]}\n\t\t\txmin = math.Min(xmin, math.Min(cp.X, end.X))", "E2.layout"},
 	},
 	"C10": {
+		{"CubeTo tests the first control point in the clause of the second", "path.go", `(angleEqual\(end\.Sub\(start\)\.AngleBetween\(cp2\.Sub\(start\)\), 0\.0\) && angleEqual\(end\.Sub\(start\)\.AngleBetween\(end\.Sub\()cp2(\)\), 0\.0\)\))`, "${1}cp1${2}", "E11.control-point-clauses-symmetric"},
 		{"RoundedRectangle clamps the radius before taking its sign off", "shapes.go", `(?s)(\tsweep := true\n\tif r < 0\.0 \{\n\t\tsweep = false\n\t\tr = -r\n\t\}\n)(\tr = math\.Min\(r, w/2\.0\)\n\tr = math\.Min\(r, h/2\.0\)\n)(\n\tp := &Path\{\}\n\tp\.MoveTo\(0\.0, r\)\n\tp\.ArcTo)`, "$2$1$3", "E11.clamp-after-sign"},
 		{"large-arc flag from the signed angle difference", "path.go", `(?s)dtheta := math\.Abs\(theta1 - theta0\)\n\n\tsweep := theta0 < theta1\n\tlarge := math\.Mod\(dtheta, 2\.0\*math\.Pi\) > math\.Pi\n`, "dtheta := theta1 - theta0\n\n\tsweep := theta0 < theta1\n\tlarge := math.Mod(dtheta, 2.0*math.Pi) > math.Pi\n\tdtheta = math.Abs(dtheta)\n", "E11.arc-span-magnitude"},
 		{"radii check rotates the chord by +phi", "path_util.go", `(?s)(func ellipseRadiiCorrection\(.*?)\tx1p := \(cosphi\*diff\.X \+ sinphi\*diff\.Y\) / 2\.0\n\ty1p := \(-sinphi\*diff\.X \+ cosphi\*diff\.Y\) / 2\.0\n`, "${1}\tx1p := (cosphi*diff.X - sinphi*diff.Y) / 2.0\n\ty1p := (sinphi*diff.X + cosphi*diff.Y) / 2.0\n", "E3.ellipse-frame"},
@@ -194,6 +200,7 @@ var Mutants = map[string][]Mutant{
 		{"number table larger than the buffer", "path.go", `\t\t'A': 7,\n`, "\t\t'A': 8,\n", "E4.table-bound"},
 	},
 	"C12": {
+		{"stroke state set before the fill operator when the alphas differ", "renderers/pdf/pdf.go", `(?s)(\t\t\t\} else \{\n\t\t\t\tr\.w\.SetFill\(style\.Fill\)\n)(\t\t\t\tr\.w\.Write\(\[\]byte\(" "\)\)\n\t\t\t\tr\.w\.Write\(\[\]byte\(data\)\)\n\t\t\t\tr\.w\.Write\(\[\]byte\(" f"\)\)\n\t\t\t\tif style\.FillRule == canvas\.EvenOdd \{\n\t\t\t\t\tr\.w\.Write\(\[\]byte\("\*"\)\)\n\t\t\t\t\}\n\n)(\t\t\t\tr\.w\.SetStroke\(style\.Stroke\)\n)`, "$1$3$2", "E5.paint-follows-its-setter"},
 		{"SetFont forgets the direction", "renderers/pdf/writer.go", `\t\tw\.font = font\n\t\tw\.fontSize = size\n\t\tw\.fontDirection = direction\n`, "\t\tw.font, w.fontSize = font, size\n", "E6.memo-stores-compared"},
 		{"even-odd fill+stroke operator chosen before closedness", "renderers/pdf/pdf.go", `(?s)if closed \{\n\t\t\t\t\tr\.w\.Write\(\[\]byte\(" b"\)\)\n\t\t\t\t\} else \{\n\t\t\t\t\tr\.w\.Write\(\[\]byte\(" B"\)\)\n\t\t\t\t\}\n\t\t\t\tif style\.FillRule == canvas\.EvenOdd \{\n\t\t\t\t\tr\.w\.Write\(\[\]byte\("\*"\)\)\n\t\t\t\t\}`, "op := \" B\"\n\t\t\t\tif style.FillRule == canvas.EvenOdd {\n\t\t\t\t\top = \" B*\"\n\t\t\t\t} else if closed {\n\t\t\t\t\top = \" b\"\n\t\t\t\t}\n\t\t\t\tr.w.Write([]byte(op))", "E5.closed-paint-operator"},
 		{"gradient padded only up to zero", "colors.go", `\} else if t <= stops\[0\]\.Offset \|\| len\(stops\) == 1 \{`, "} else if t <= 0.0 || len(stops) == 1 {", "E11.gradient-pad"},
@@ -307,6 +314,7 @@ var Mutants = map[string][]Mutant{
 		{"Text.Heights uses the first line's top", "text.go", `\t_, ascent, _, _ := firstLine\.Heights\(t\.WritingMode\)`, "\tascent, _, _, _ := firstLine.Heights(t.WritingMode)", "E3.line-heights"},
 	},
 	"C17": {
+		{"next stretch limit recorded in the else of the deactivation test", "text/linebreak.go", `(?s)(\t\t\t\tlb\.inactiveNodes\.Push\(active\)\n\t\t\t\})(\n\t\t\tif -1\.0 <= ratio && ratio <= tolerance \{.*?\n\t\t\t)\} else if tolerance < ratio \{\n[^\n]*\n\t\t\t\tlb\.nextTolerance = math\.Min\(lb\.nextTolerance, ratio\)\n\t\t\t\}`, "$1 else if tolerance < ratio {\n\t\t\t\tlb.nextTolerance = math.Min(lb.nextTolerance, ratio)\n\t\t\t}$2}", "E4.next-tolerance-recorded"},
 		{"penalty width added to the running total during mainLoop", "text/linebreak.go", `(func \(lb \*linebreaker\) mainLoop\(b int, tolerance float64\) \{\n\titem := lb\.items\[b\]\n\tactive := lb\.activeNodes\.head\n)`, "${1}\tif item.Type == PenaltyType {\n\t\tdefer func(W float64) { lb.W = W }(lb.W)\n\t\tlb.W += item.Width\n\t}\n", "E4.running-totals-fixed"},
 		{"flagged-break demerit added first and overwritten by the else branch", "text/linebreak.go", `(?s)(\t\t\t\tdemerits := 0\.0\n)(.*?)(\t\t\t\tif lb\.items\[active\.Position\]\.Flagged && item\.Flagged \{\n\t\t\t\t\tdemerits \+= DemeritsFlagged\n\t\t\t\t\}\n)`, "${1}\t\t\t\tif lb.items[active.Position].Flagged && item.Flagged {\n\t\t\t\t\tdemerits = DemeritsFlagged\n\t\t\t\t}\n${2}", "E11.sum-not-overwritten"},
 		{"inactive nodes kept across a forced break", "text/linebreak.go", `(?s)\t\tif item\.Type == PenaltyType && item\.Penalty <= -Infinity \{\n\t\t\t// no line spans a forced break: the nodes before it cannot start a later line\n\t\t\tlb\.inactiveNodes = &Breakpoints\{\}\n\t\t\}\n`, "", "E4.forced-break-forgets"},
@@ -320,6 +328,7 @@ var Mutants = map[string][]Mutant{
 		{"Linebreak looks at items[b+1] unguarded", "text/linebreak.go", `\(len\(lb\.items\) <= b\+1 \|\| lb\.items\[b\+1\]\.Type != PenaltyType\)`, `lb.items[b+1].Type != PenaltyType`, "E4.neighbour-guard"},
 	},
 	"C18": {
+		{"glyph offsets added to the pen", "font.go", `(?s)\t\terr := face\.Font\.GlyphPath\(p, glyph\.ID, ppem, f\*float64\(x\+glyph\.XOffset\), f\*float64\(y\+glyph\.YOffset\), f, font\.NoHinting\)\n`, "\t\tx, y = x+glyph.XOffset, y+glyph.YOffset\n\t\terr := face.Font.GlyphPath(p, glyph.ID, ppem, f*float64(x), f*float64(y), f, font.NoHinting)\n", "E11.pen-advances-only"},
 		{"SetFont forgets the direction", "renderers/pdf/writer.go", `\t\tw\.font = font\n\t\tw\.fontSize = size\n\t\tw\.fontDirection = direction\n`, "\t\tw.font, w.fontSize = font, size\n", "E6.memo-stores-compared"},
 		{"default width taken from the most common glyph", "renderers/pdf/writer.go", `\tDW := widths\[0\]\n`, "\tDW, counts := widths[0], map[int]int{}\n\tfor _, width := range widths[1:len(glyphIDs)] {\n\t\tcounts[width]++\n\t\tif counts[DW] < counts[width] {\n\t\t\tDW = width\n\t\t}\n\t}\n", "E5.default-width"},
 		{"ToUnicode run continues across skipped glyphs", "renderers/pdf/writer.go", `(?s)if 0x010000 <= unicode && unicode <= 0x10FFFF \{(.*?)if uint16\(subsetGlyphID\+1\) == startGlyphID\+length && unicode == startUnicode\+uint32\(length\) \{`, "if unicode == 0 {\n\t\t\tcontinue\n\t\t} else if 0x010000 <= unicode && unicode <= 0x10FFFF {${1}if unicode == startUnicode+uint32(length) {", "E11.run-covers-codes"},
@@ -334,6 +343,7 @@ var Mutants = map[string][]Mutant{
 		{"vertical fonts written as horizontal", "renderers/pdf/writer.go", `w\.writeFonts\(w\.fontsV, true\)`, `w.writeFonts(w.fontsV, false)`, "E5.fontmaps"},
 	},
 	"C19": {
+		{"empty attribute value taken for a missing one", "svg.go", `if len\(val\) < 2 \{`, "if len(val) <= 2 {", "E11.empty-value-accepted"},
 		{"alpha of #rgba mixes in the red digit (reverts fix 7fac093)", "colors.go", `a := float64\(h\[3\]\*16\+h\[3\]\) / 255\.0`, "a := float64(h[3]*16+h[0]) / 255.0", "E11.hex-digit-pairs"},
 		{"stroke-linecap butt left out as the default", "svg.go", `if val == "butt" \{\n\t\t\tsvg\.ctx\.SetStrokeCapper\(ButtCap\)\n\t\t\} else if val == "round" \{`, "if val == \"round\" {", "E11.svg-keyword-initial"},
 		{"percentages relative to the pixel size under a viewBox", "svg.go", `svg\.width, svg\.height = viewbox\[2\], viewbox\[3\]`, "svg.width, svg.height = width*96.0/25.4, height*96.0/25.4", "E11.percent-reference"},
@@ -363,6 +373,7 @@ var Mutants = map[string][]Mutant{
 		{"explicit width used as millimetres", "svg.go", `width = svg\.parseDimension\(attrWidth, 1\.0\) \* 25\.4 / 96\.0`, `width = svg.parseDimension(attrWidth, 1.0)`, "E11.svg-size"},
 	},
 	"C20": {
+		{"shared shaping face built with NewFace", "text/harfbuzz.go", `&typesettingFont\.Face\{Font: font\}`, "typesettingFont.NewFace(font)", "E7.face-without-cache"},
 		{"faux bold toggles the package-level FastStroke", "font.go", `(\t+)p = p\.Offset\(d, Tolerance\)\n`, "${1}fastStroke := FastStroke\n${1}FastStroke = true\n${1}p = p.Offset(d, Tolerance)\n${1}FastStroke = fastStroke\n", "E7.global"},
 		{"hyphen width memoised per font without the size", "text/linebreak.go", `(?s)(\t"math"\n)(.*?)(// GlyphsToItems converts a slice of glyphs.*?)(\t\t\t\thyphenWidth \*= glyph\.Size / float64\(glyph\.SFNT\.Head\.UnitsPerEm\)\n)`, "${1}\t\"sync\"\n${2}var hyphenWidths sync.Map\n\n${3}${4}\t\t\t\thyphenWidths.Store(glyph.SFNT, hyphenWidth)\n", "E7.memo-key"},
 		{"image pixel buffers recycled without zeroing", "renderers/pdf/writer.go", `(?s)(\t"strings"\n)(.*?)(func \(w \*pdfPageWriter\) embedImage\(.*?)stream = make\(\[\]byte, size\.X\*size\.Y\*3\)`, "${1}\t\"sync\"\n${2}var imageBufPool sync.Pool\n\nfunc getImageBuf(n int) []byte {\n\tif buf, ok := imageBufPool.Get().(*[]byte); ok && n <= cap(*buf) {\n\t\treturn (*buf)[:n]\n\t}\n\treturn make([]byte, n)\n}\n\n${3}stream = getImageBuf(size.X * size.Y * 3)\n\t\tdefer func() { imageBufPool.Put(\u0026stream) }()", "E7.pool-reinit"},
